@@ -869,9 +869,12 @@ impl TypedExpr {
                 let x = x.compile(prg, env, circuit);
                 assert_eq!(x.len(), 1);
                 let panic_before_y = circuit.peek_panic().clone();
-                let y = y.compile(prg, env, circuit);
+                let mut env_with_y = env.clone();
+                let y = y.compile(prg, &mut env_with_y, circuit);
                 assert_eq!(y.len(), 1);
 
+                // `y` is only evaluated if `x` is true, which also applies to its assignments:
+                *env = circuit.mux_envs(x[0], env_with_y, env.clone());
                 let panic = circuit.mux_panic(x[0], &circuit.peek_panic().clone(), &panic_before_y);
                 circuit.replace_panic_with(panic);
 
@@ -881,9 +884,12 @@ impl TypedExpr {
                 let x = x.compile(prg, env, circuit);
                 assert_eq!(x.len(), 1);
                 let panic_before_y = circuit.peek_panic().clone();
-                let y = y.compile(prg, env, circuit);
+                let mut env_with_y = env.clone();
+                let y = y.compile(prg, &mut env_with_y, circuit);
                 assert_eq!(y.len(), 1);
 
+                // `y` is only evaluated if `x` is false, which also applies to its assignments:
+                *env = circuit.mux_envs(x[0], env.clone(), env_with_y);
                 let panic = circuit.mux_panic(x[0], &panic_before_y, &circuit.peek_panic().clone());
                 circuit.replace_panic_with(panic);
 
